@@ -1,0 +1,2 @@
+// Package verifhook is empty unless the library is built with -tags verif.
+package verifhook
